@@ -841,20 +841,30 @@ func vfC29Fills(rec *evid.Rec) {
 	type scen struct {
 		reader  string // READDIR | LOOKUP-existing | LOOKUP-absent
 		mutator string
+		// evict: the attribute cache holds ONE entry; the mutator is parked at its first modifying
+		// backend call (its pre-operation GETATTR has cached the path by then) while a GETATTR of
+		// another file pushes that entry out - so the path is absent from the cache at the moment
+		// the mutation invalidates it
+		evict bool
 	}
 	var scens []scen
 	for _, m := range []string{"CREATE", "MKDIR", "SYMLINK", "REMOVE", "RMDIR", "RENAME-within", "RENAME-in", "RENAME-out"} {
-		scens = append(scens, scen{"READDIR", m})
+		scens = append(scens, scen{"READDIR", m, false})
 	}
 	for _, m := range []string{"REMOVE", "WRITE", "SETATTR-size", "RENAME-away", "RENAME-over"} {
-		scens = append(scens, scen{"LOOKUP-existing", m})
+		scens = append(scens, scen{"LOOKUP-existing", m, false})
 	}
 	for _, m := range []string{"CREATE", "MKDIR", "SYMLINK", "RENAME-onto"} {
-		scens = append(scens, scen{"LOOKUP-absent", m})
+		scens = append(scens, scen{"LOOKUP-absent", m, false})
 	}
 	for _, m := range []string{"WRITE", "SETATTR-size", "RENAME-over", "REMOVE"} {
 		for _, rd := range []string{"GETATTR-existing", "ACCESS-existing", "READ-existing"} {
-			scens = append(scens, scen{rd, m})
+			scens = append(scens, scen{rd, m, false})
+		}
+	}
+	for _, m := range []string{"WRITE", "SETATTR-size", "REMOVE"} {
+		for _, rd := range []string{"LOOKUP-existing", "GETATTR-existing"} {
+			scens = append(scens, scen{rd, m, true})
 		}
 	}
 	for _, sc := range scens {
@@ -864,7 +874,11 @@ func vfC29Fills(rec *evid.Rec) {
 		fs.PlantFile("/d/old", []byte("old-data"), 0666, 0, 0)
 		fs.PlantDir("/d/olddir", 0777, 0, 0)
 		fs.PlantFile("/e/other", []byte("other"), 0666, 0, 0)
-		srv, err := vfNewSrv(fs, ExportOptions{AttrCacheTimeout: time.Hour, EnableDirCache: true, DirCacheTimeout: time.Hour, CacheNegativeLookups: true, NegativeCacheTimeout: time.Hour})
+		fopts := ExportOptions{AttrCacheTimeout: time.Hour, EnableDirCache: true, DirCacheTimeout: time.Hour, CacheNegativeLookups: true, NegativeCacheTimeout: time.Hour}
+		if sc.evict {
+			fopts.AttrCacheSize = 1
+		}
+		srv, err := vfNewSrv(fs, fopts)
 		if err != nil {
 			rec.Infra(err.Error())
 			return
@@ -896,7 +910,13 @@ func vfC29Fills(rec *evid.Rec) {
 			parkName, parkPath, target = "Lstat", "/d/old", "old"
 		}
 		parked, open := make(chan struct{}), make(chan struct{})
-		var once sync.Once
+		parked2, open2 := make(chan struct{}), make(chan struct{})
+		var once, once2 sync.Once
+		otherh := uint64(0)
+		if sc.evict {
+			otherh = look(eh, "other")
+			srv.nfs.attrCache.Invalidate("/d/old")
+		}
 		fs.SetHook(func(op *refs.Op, ph refs.Phase) error {
 			if ph == refs.After && op.Name == parkName && op.Path == parkPath {
 				first := false
@@ -904,6 +924,14 @@ func vfC29Fills(rec *evid.Rec) {
 				if first {
 					close(parked)
 					<-open
+				}
+			}
+			if sc.evict && ph == refs.Before && op.Mutating && op.Path == "/d/old" {
+				first := false
+				once2.Do(func() { first = true })
+				if first {
+					close(parked2)
+					<-open2
 				}
 			}
 			return nil
@@ -926,6 +954,9 @@ func vfC29Fills(rec *evid.Rec) {
 			}
 		}()
 		desc := fmt.Sprintf("reader=%s parked after %s(%s), mutator=%s", sc.reader, parkName, parkPath, sc.mutator)
+		if sc.evict {
+			desc += ", one-entry attribute cache, the path pushed out of the cache between the mutator's pre-operation GETATTR and its invalidation"
+		}
 		evid.Journal(desc)
 		select {
 		case <-parked:
@@ -937,6 +968,19 @@ func vfC29Fills(rec *evid.Rec) {
 		}
 		// the mutation, start to finish, while the reader holds its stale view
 		var mres *rfc.Res
+		if sc.evict {
+			go func() {
+				select {
+				case <-parked2:
+					// the mutator sits at its first modifying call: push its path out of the cache
+					c2 := srv.client()
+					c2.getattr(otherh)
+					c2.lookup(eh, "other")
+				case <-time.After(20 * time.Second):
+				}
+				close(open2)
+			}()
+		}
 		switch sc.mutator {
 		case "CREATE":
 			mres, _ = c.create(dh, "new", 1, sattrNone, [8]byte{})
@@ -1006,7 +1050,7 @@ func vfC29Fills(rec *evid.Rec) {
 				rec.Violate("C29/fill-race/stale-attributes-cached-after-"+sc.mutator, fmt.Sprintf("%s: LOOKUP afterwards reports size %d, the file has %d bytes", desc, r.Obj.A.Size, be.Size), nil)
 			}
 		}
-		rec.Distinct(fmt.Sprintf("fill-race|%s|%s|%s", sc.reader, sc.mutator, outcome))
+		rec.Distinct(fmt.Sprintf("fill-race|%s|%s|evict=%v|%s", sc.reader, sc.mutator, sc.evict, outcome))
 		vfC29Audit(rec, srv, "fill-race", map[string]any{"scenario": desc})
 		srv.Close()
 	}
